@@ -723,6 +723,17 @@ def check_cm_entry(ctx, case):
         if abs(q) == 1:
             short = sym + ('+' if q > 0 else '-')
             calls.append(('fxrayatq(%r, Q)' % short, lambda: cromermann.fxrayatq(short, Q)))
+        # documented: an explicit charge overrides any valence suffix of the symbol
+        other = sym + ('3-' if q > 0 else '2+')
+        calls.append(('fxrayatq(%r, Q, charge=%d)' % (other, q), lambda: cromermann.fxrayatq(other, Q, charge=q)))
+        if sym in m.cm:
+            ctx.evaluated(1, 'cm-charge-0-overrides-suffix')
+            got0 = cromermann.fxrayatq(name, Q, charge=0)
+            bad0 = _vector_ok(ctx, got0, m.cm_ref(sym, grid, gkey), 'f0.err_over_terms')
+            if bad0 is not None:
+                ctx.violation('fxrayatq(%r, Q, charge=0) is not the neutral %s entry (the explicit charge overrides the '
+                              'suffix): differs at grid point %d' % (name, sym, bad0), group='cm', field='charge-override',
+                              looks_like=_like_cm(ctx, got0))
         # the symbol's element carries the Z of the file
         import periodictable as pt
         ctx.evaluated(1, 'cm-Z')
